@@ -17,6 +17,9 @@ func fixedCases() []Case {
 	oneA := func(kind string, f Frame, end string) Case {
 		return Case{S: "a", Kind: kind, Wire: &WireScript{Frames: []Frame{f}, Cut: -1, End: end}}
 	}
+	oneE := func(kind string, f Frame, end string) Case {
+		return Case{S: "e", Kind: kind, Wire: &WireScript{Frames: []Frame{f}, Cut: -1, End: end}}
+	}
 	msg := func(kind string, code uint32, t *Node) Case {
 		return Case{S: "c", Kind: kind, Msgs: []Msg{{Code: code, Payload: &Payload{Tree: t}}}}
 	}
@@ -33,6 +36,14 @@ func fixedCases() []Case {
 		oneA("fixed-handshake-declared-1GiB+1", Frame{Kind: "raw", Len: 1<<30 + 1, Plain: []Seg{{Rnd: 512, Seed: 5}}}, "hold"),
 		oneA("fixed-handshake-declared-4GiB-1", Frame{Kind: "raw", Len: 1<<32 - 1, Plain: []Seg{{Rnd: 512, Seed: 5}}}, "hold"),
 		oneA("fixed-handshake-declared-64MiB", Frame{Kind: "raw", Len: overCapLen, Plain: []Seg{{Rnd: 512, Seed: 5}}}, "hold"),
+		// ecies.Decrypt / symDecrypt: a valid tag around an encrypted part shorter than the IV (anybody who knows the NodeID can compute the tag)
+		oneA("fixed-ecies-valid-mac-encrypted-part-1-byte", Frame{Kind: "ecies-raw", Len: -1, Plain: []Seg{{Rnd: 1, Seed: 1}}}, "hold"),
+		oneA("fixed-ecies-valid-mac-encrypted-part-15-bytes", Frame{Kind: "ecies-raw", Len: -1, Plain: []Seg{{Rnd: 15, Seed: 15}}}, "hold"),
+		oneE("fixed-dial-ecies-valid-mac-encrypted-part-1-byte", Frame{Kind: "ecies-raw", Len: -1, Plain: []Seg{{Rnd: 1, Seed: 1}}}, "probe"),
+		// importPubKey on the dialling side: a listener's response whose key is no curve point / is not there at all
+		oneE("fixed-dial-response-pub-not-on-curve", Frame{Kind: "resp-mut", Len: -1, Payload: &Payload{Tree: nL(&Node{Rnd: 64, Seed: 2})}}, "probe"),
+		oneE("fixed-dial-response-pub-zero", Frame{Kind: "resp-mut", Len: -1, Payload: &Payload{Tree: nL(&Node{Fill: 64})}}, "probe"),
+		oneE("fixed-dial-response-not-rlp", Frame{Kind: "ecies", Len: -1, Plain: []Seg{{Fill: 101, Byte: 0xff}}}, "probe"),
 		// ParseNodeString: 128 characters that do not decode to 64 bytes
 		msg("fixed-discover-response-node-id-0x-prefixed", 0x0d, nL(nU(1), nL(nB([]byte("0x"+hex128[:126]+"@1.2.3.4:7001"))))),
 		msg("fixed-discover-response-node-id-not-hex", 0x0d, nL(nU(1), nL(nB([]byte(repHex("zz", 64)+"@1.2.3.4:7001"))))),
